@@ -399,7 +399,7 @@ def random_program(rng, size=None):
         if rng.random() < 0.25:
             instances = ['you', 'spouse'] if kind == 'form' else None
         ninp = rng.randint(1 if kind == 'inputform' else 0, 3)
-        inps = [[n, rng.choice(['float', 'float', 'int', 'bool', 'str'])] for n in rng.sample(INPUT_NAMES, ninp)]
+        inps = [[n, rng.choice(['float', 'float', 'int', 'bool', 'str', 'enum'])] for n in rng.sample(INPUT_NAMES, ninp)]
         fs = {'name': fn, 'kind': kind, 'instances': instances, 'inputs': inps, 'lines': []}
         fulls = [fn] if not instances and kind == 'form' else ([f'{fn}:{x}' for x in instances] if instances else [f'{fn}:0', f'{fn}:1'])
         fs['_fulls'] = fulls
@@ -467,7 +467,7 @@ def random_program(rng, size=None):
     if rng.random() < 0.02 and file:
         q = rng.choice(sorted(file))
         t = dict(all_inputs)[q]
-        if t in ('float', 'int', 'bool'):
+        if t in ('float', 'int', 'bool', 'enum'):
             file[q] = 'not-a-value'
     for fs in forms:
         del fs['_fulls']
@@ -482,6 +482,8 @@ def _rand_text(rng, t):
         return rng.choice(['0', '1', '2', '3', '-1', '', '15'])
     if t == 'bool':
         return rng.choice(['yes', 'no', 'true', 'false', 'Y', 'n', '1', '0', 'on', 'off'])
+    if t == 'enum':
+        return rng.choice(['', '', 'alpha', 'beta', ' gamma '])
     return rng.choice(['abc', 'x y', '', 'Hello World', '42'])
 
 
